@@ -145,9 +145,30 @@ def run_task(task: Dict[str, Any]) -> Dict[str, Any]:
     cache: Dict[str, Any] = {}
 
     # ---------------------------------------------------------------- check / parse
-    for s in task["strings"]:
+    # histories: a few words of an inner nonterminal N are first parsed AS N (`parse(s, nonterminal=N)`, which
+    # skips the semantic check) and then judged like every other input -- what check / parse say about a string must
+    # not depend on earlier calls of the same solver object
+    strings = list(task["strings"])
+    parsed_as: Dict[str, str] = {}
+    try:
+        from bounded.c01_cases import INNER_START
+        inner = INNER_START.get(gname)
+        if inner and inner in grammar and gname != "wide":
+            import itertools as _it
+            for st_ in _it.islice(reftree.ref_tree_structs(grammar, inner, 9), 4):
+                w = reftree.ref_str(reftree.from_struct(st_))
+                r0 = _observe(lambda: solver.parse(w, nonterminal=inner, silent=True), 15)
+                if "ok" in r0:
+                    parsed_as[w] = inner
+                    if w not in strings:
+                        strings.append(w)
+    except Exception:  # noqa
+        pass
+    for s in strings:
         facts = oracle_facts(grammar, formula, s, cache)
         obs: Dict[str, Any] = dict(s=s, oracle=facts)
+        if s in parsed_as:
+            obs["after_parse_as"] = parsed_as[s]
         r = _observe(lambda: solver.check(s), 15)
         obs["check_str"] = r if "ok" not in r else {"ok": bool(r["ok"]), "type": type(r["ok"]).__name__}
         r = _observe(lambda: solver.parse(s, silent=True), 15)
